@@ -72,8 +72,9 @@ def Seg.lower : Seg → Seg
   | .plain s => .plain (Fp.lower s)
   | .quoted s => .quoted s
 
-/-- `splitquote(line, lower=True)[0]` -/
-def splitquoteLower (line : Str) : List Seg := (splitquote line none).1.map Seg.lower
+/-- `splitquote(line, lower=lower)[0]` -/
+def splitquoteL (line : Str) (lower : Bool) : List Seg :=
+  if lower then (splitquote line none).1.map Seg.lower else (splitquote line none).1
 
 /-! ### splitparen -/
 
@@ -305,9 +306,9 @@ def srmFix : List Str → SMap → SMap
       let inc := f2pyFindall entry
       if inc = [] then srmFix ks m else srmFix ks ((key, fixEntry m inc entry) :: m)
 
-/-- `string_replace_map(line, lower=True)` -/
-def stringReplaceMap (line : Str) : Str × SMap :=
-  let (st1, nl1) := srmStrings (splitquoteLower line) {} []
+/-- `string_replace_map(line, lower=lower)` -/
+def stringReplaceMap (line : Str) (lower : Bool) : Str × SMap :=
+  let (st1, nl1) := srmStrings (splitquoteL line lower) {} []
   let (st2, nl2) := srmConsts (expConstFind nl1) st1 nl1
   let (st3, out) := srmParens (splitparen nl2) st2 []
   (out, srmFix (st3.exprKeys ++ st3.constKeys) st3.map)
